@@ -17,8 +17,8 @@ PID = "C17"
 G0 = "int i; double d = 1.5; double fd() { return 2.5; } broadcast chan bc;"
 
 
-def T(name="T", decl="clock x; hybrid clock h;", params=None, inv=None, guard=None, assign=None, sync=None):
-    return X.template(name, params=params, decl=decl, locations=[X.location("id0_" + name, "L0", inv=inv),
+def T(name="T", decl="clock x; hybrid clock h;", params=None, inv=None, guard=None, assign=None, sync=None, lockind=None):
+    return X.template(name, params=params, decl=decl, locations=[X.location("id0_" + name, "L0", inv=inv, urgent=lockind == "urgent", committed=lockind == "committed"),
                                                                   X.location("id1_" + name, "L1")],
                       init="id0_" + name, transitions=[X.transition("id0_" + name, "id1_" + name, guard=guard, sync=sync,
                                                                     assign=assign)])
@@ -109,6 +109,12 @@ def features():
     yield ("clock-init-fp", "template-local", dict(decl="clock x = 1.5; hybrid clock h;"), "", {"symbolic"})
     yield ("clock-init-fp", "global", dict(), "clock gx = 1.5;", {"symbolic"})
     yield ("clock-init-fp", "template-local-double-var", dict(decl="clock x = d; hybrid clock h;"), "", {"symbolic"})
+    # the invariant of an urgent / a committed location is an invariant like any other
+    for lk in ("urgent", "committed"):
+        for pid_, inv in (("fp-bound", "x <= 2.5"), ("fp-bound-second-conjunct", "i >= 0 && x <= 2.5"), ("fp-bound-reversed", "2.5 >= x"),
+                          ("double-variable-bound", "x <= d"), ("rate-2", "x' == 2"), ("rate-0.5-in-conjunction", "x <= 5 && x' == 0.5"),
+                          ("rate-under-forall", "forall (k : int[0,1]) x' == 3")):
+            yield ("invariant-of-%s-location" % lk, pid_, dict(inv=inv, lockind=lk), "", {"symbolic"})
     # rates
     # (a rate given by a variable expression may still be 0 or 1 at run time: not claimed, cf. rate_expression.xml)
     for rid, rate in (("2", "2"), ("3", "3"), ("2.5", "2.5"), ("0.5", "0.5")):
